@@ -15,3 +15,17 @@ func TestWorker(t *testing.T) {
 	}
 	os.Exit(core.WorkerMain(env, &Engine{T: t}))
 }
+
+// TestRaceSweep is the free-running phase: the same seeded programs, real sync
+// primitives, a binary built with -race at GOMAXPROCS 4.  A DATA RACE report
+// (GORACE halt_on_error) or a runtime abort kills the worker; the driver turns
+// that into a violation through the journal.
+func TestRaceSweep(t *testing.T) {
+	os.Setenv("VERIF_RACE", "1")
+	env := core.ReadEnv()
+	devnull, _ := os.OpenFile(os.DevNull, os.O_WRONLY, 0)
+	if os.Getenv("VERIF_KEEP_STDOUT") == "" && env.Mode == "batch" {
+		os.Stdout = devnull
+	}
+	os.Exit(core.WorkerMain(env, &Engine{T: t}))
+}
